@@ -25,6 +25,7 @@ func ZZ_C11_Restore() {
 	zzverif.WinsizeHook = func() (int, int) { return w, 24 }
 	zzverif.SymbolicTermios()
 	vt := zzverif.CaptureVT(w)
+	zzverif.TruthfulReports(vt)
 	prompt := "> "
 	rl.Prompt.Primary(func() string { return prompt })
 
